@@ -37,10 +37,30 @@ INJECTIVE_KEYS = {
 def _key_function(fn, key):
   """(parameter name, [result expressions]) of a sort key written as a lambda, as a local `def`
   (or a local bound to a lambda) of the enclosing function; None when it is neither."""
-  from .rules._h_F import local_function, function_results, all_params
+  from .rules._h_F import local_function, function_results, all_params, res_of, Res
   f = local_function(fn, key)
   if f is None:
-    return None
+    # a function of the same module, or a method of the same class, named as the key
+    fi = None
+    mod = getattr(fn.fi, "module", None)
+    if isinstance(key, ast.Name) and mod is not None:
+      fi = mod.functions.get(key.id)
+    elif isinstance(key, ast.Attribute) and isinstance(key.value, ast.Name) and \
+        key.value.id in ("self", "cls") and getattr(fn.fi, "cls", None) is not None:
+      fi = fn.world.repo.find_method(fn.fi.cls, key.attr)
+    if fi is None:
+      return None
+    ps = [p for p in fi.params() if not (fi.cls is not None and p in ("self", "cls"))]
+    if len(ps) != 1 or fi.node.args.vararg or fi.node.args.kwarg:
+      return None
+    try:
+      r = res_of(fn.world, fn.world.fn_of(fi))
+      leaves = [leaf for (n, v) in r.returns() for (facts, leaf) in Res.cases(v)]
+      if not leaves or r.falls_off_end():
+        return None
+    except Exception:
+      return None
+    return ps[0], leaves
   ps = all_params(f)
   if isinstance(f, ast.Lambda):
     if len(ps) != 1:
@@ -121,6 +141,24 @@ def key_is_injective(fn, call):
     if at and r.norm(subject, at[0].id).endswith(suffix):
       return True
   return False
+
+
+def key_known(fn, call):
+  """Can the sort key of this sorted()/sort() call be inspected (no key, a lambda / local or
+  module-level function whose results are visible, or a key listed in INJECTIVE_KEYS)?"""
+  key = None
+  for k in call.keywords:
+    if k.arg == "key":
+      key = k.value
+  if key is None or _key_function(fn, key) is not None:
+    return True
+  return key_is_injective(fn, call)
+
+
+def _undecided_key(fn, call):
+  from .index import AnalysisError
+  raise AnalysisError("%s: an unordered value is sorted with a key that cannot be inspected (%s): "
+                      "whether ties are possible is undecided" % (fn.qualname, short(call, 70)))
 
 
 class FnTaint(object):
@@ -222,7 +260,11 @@ class FnTaint(object):
     if isinstance(e, ast.Call):
       d = dotted(e.func)
       if d == "sorted" and e.args and not key_is_injective(self.fn, e):
-        return self.unordered(e.args[0])     # ties keep the unordered incoming order
+        if not self.unordered(e.args[0]):
+          return False
+        if not key_known(self.fn, e):
+          _undecided_key(self.fn, e)
+        return True                          # ties keep the unordered incoming order
       if d in REDUCERS:
         return False
       if d in ("itertools.product", "product"):
@@ -356,6 +398,9 @@ class FnTaint(object):
       if isinstance(x, ast.Call) and dotted(x.func) in REDUCERS and \
           not (dotted(x.func) == "sorted" and not key_is_injective(self.fn, x)):
         clean = True
+      elif isinstance(x, ast.Call) and dotted(x.func) == "sorted" and x.args and not clean and \
+          not key_known(self.fn, x) and self.unordered(x.args[0]):
+        _undecided_key(self.fn, x)
       if isinstance(x, (ast.Lambda,)):
         return
       if not clean and isinstance(x, ast.AST) and self.unordered(x) and \
